@@ -43,8 +43,9 @@ Proof.
 Qed.
 
 (* ---------- configuration and environment facts the ratio needs ---------- *)
-(* asset decimals are positive powers of ten, min c-ratio at least 10^-18, prices are uint64 *)
-Definition ep_ok3 (e : epair) : Prop := 0 < ep_dec_in e /\ 0 < ep_dec_out e /\ 1 <= ep_min_cr e /\ 0 <= ep_out_price e.
+(* asset decimals are positive powers of ten, min c-ratio at least 10^-18, prices are uint64,
+   the debt ceiling is not negative (x/asset requires DebtFloor < DebtCeiling) *)
+Definition ep_ok3 (e : epair) : Prop := 0 < ep_dec_in e /\ 0 < ep_dec_out e /\ 1 <= ep_min_cr e /\ 0 <= ep_out_price e /\ 0 <= ep_ceiling e.
 Definition cfg_ok3 (c : cfg) : Prop := cfg_ok c /\ forall e, In e (epairs c) -> ep_ok3 e.
 Definition PriceOk (s : state) : Prop := forall a p, price s a = Some p -> 0 <= p.
 
@@ -54,7 +55,7 @@ Lemma verify_cr_accept s ep ain aout : ep_ok3 ep -> PriceOk s -> 0 <= ain -> 0 <
   price_required_missing s ep = false /\ cr_ok s ep ain aout = true /\
   exists r, calc_cr s ep ain aout = Ok r /\ ep_min_cr ep <= r.
 Proof.
-  intros (Hdi & Hdo & Hm & Hop) PO Ha Ho Hst H.
+  intros (Hdi & Hdo & Hm & Hop & _) PO Ha Ho Hst H.
   unfold verify_cr in H. destruct (calc_cr s ep ain aout) as [r| |] eqn:Hc; cbn [obind] in H; try discriminate.
   rewrite andb_false_r in H. cbn [negb] in H. rewrite andb_true_r in H.
   destruct (Z.ltb_spec r (ep_min_cr ep)) as [|Hr]; [discriminate|]. clear H.
@@ -160,3 +161,156 @@ Proof.
     rewrite Hm'. rewrite (ef_vaults _ _ _ _ _ _ E2). cbn [bc_vaults]. rewrite find_put_same by (cbn; apply (find_v_id _ _ _ Hf1)).
     cbn [v_in v_out v_int v_fee with_out with_int]. rewrite (effect_cr_ok _ _ _ _ _ _ _ _ _ E2). exact Hok.
 Qed.
+
+(* ---------- debt floor and debt ceiling as invariants ---------- *)
+Definition floor_ok (c : cfg) (v : vault) : Prop := exists ep, get_ep c (v_pair v) = Some ep /\ ep_floor ep <= v_out v.
+Record InvRisk (c : cfg) (s : state) : Prop := mkRisk {
+  r_floor : forall v, In v (vaults s) -> floor_ok c v;
+  r_ceil : forall a p ep, get_ep c p = Some ep -> pmint s a p <= Z.max 0 (ep_ceiling ep)
+}.
+(* what a handler must establish about the record it touches *)
+Definition bc_risk (c : cfg) (s : state) bc : Prop :=
+  (match bc with BUpd v0 v1 => v_out v0 <= v_out v1 \/ floor_ok c v1 | BNew v => floor_ok c v | _ => True end) /\
+  (0 < bc_dout bc -> exists ep, get_ep c (bc_pair bc) = Some ep /\ pmint s (bc_app bc) (bc_pair bc) + bc_dout bc <= ep_ceiling ep).
+
+Lemma effect_risk c s s' f bc fee : InvRisk c s -> effect c s s' f bc fee -> bc_risk c s bc -> InvRisk c s'.
+Proof.
+  intros R E [RF RC]. pose proof (ef_pre _ _ _ _ _ _ E) as Hpre. constructor.
+  - rewrite (ef_vaults _ _ _ _ _ _ E). intros w Hw. pose proof (r_floor _ _ R) as HF.
+    destruct bc as [|v0 v1|v|v0|x0 x1|x]; cbn [bc_vaults bc_pre] in *; try (apply HF; exact Hw).
+    + apply (gput_in v_id) in Hw. destruct Hw as [->|Hw]; [|apply HF; exact Hw].
+      destruct RF as [Hle|Hok]; [|exact Hok]. destruct Hpre as (Hf & _ & _ & Hp).
+      apply (gfind_some v_id) in Hf. destruct Hf as [Hin _]. destruct (HF _ Hin) as (ep & Hep & Hfl).
+      exists ep. rewrite Hp. split; [exact Hep|lia].
+    + apply (gput_in v_id) in Hw. destruct Hw as [->|Hw]; [exact RF|apply HF; exact Hw].
+    + apply (gdel_in v_id) in Hw. apply HF; exact Hw.
+  - intros a p ep Hep. rewrite (ef_mint _ _ _ _ _ _ E). pose proof (r_ceil _ _ R a p ep Hep) as HC.
+    destruct (touched bc a p) eqn:T; [|lia].
+    destruct (Z.lt_ge_cases 0 (bc_dout bc)) as [Hpos|Hneg]; [|lia].
+    destruct (RC Hpos) as (ep' & Hep' & Hle).
+    assert (a = bc_app bc /\ p = bc_pair bc) as [-> ->].
+    { unfold touched in T. destruct bc; try discriminate; apply andb_true_iff in T; destruct T as [T1 T2]; apply Z.eqb_eq in T1, T2; split; assumption. }
+    rewrite Hep in Hep'. injection Hep' as <-. lia.
+Qed.
+
+Lemma risk_frame c s s' : InvRisk c s -> vaults s' = vaults s -> prods s' = prods s -> InvRisk c s'.
+Proof. intros R Hv Hp. constructor; unfold pmint; rewrite ?Hv, ?Hp; apply R. Qed.
+
+Lemma floor_ok_same c v0 v1 : v_pair v1 = v_pair v0 -> v_out v0 <= v_out v1 -> floor_ok c v0 -> floor_ok c v1.
+Proof. intros Hp Hle (ep & Hep & Hf). exists ep. rewrite Hp. split; [exact Hep|lia]. Qed.
+
+Theorem run_risk c s o s' : cfg_ok c -> user_op o -> Inv01 c s -> InvRisk c s -> run c s o = Ok s' -> InvRisk c s'.
+Proof.
+  intros CK [Hu _] I R H. pose proof (inv_prods_exist c s I) as PE. pose proof (i_wf _ _ I) as W.
+  destruct o; cbn [run sender] in *.
+  - unfold msg_create in H. do 2 exec1 H.
+    destruct (create_h_effect c s from app epid ain aout s' CK ltac:(lia) ltac:(lia) H) as (ep & cl & Hep & _ & _ & _ & Hfl & Hce & _ & _ & _ & E).
+    apply (effect_risk _ _ _ _ _ _ R E). split; cbn [bc_dout bc_pair bc_app v_out v_pair v_app].
+    + exists ep. split; [exact Hep|exact Hfl].
+    + intros _. exists ep. split; [exact Hep|exact Hce].
+  - unfold msg_deposit in H. do 2 exec1 H.
+    destruct (deposit_h_effect c s from app epid id amt ienv s' PE W ltac:(lia) H) as (v0 & ep & _ & _ & _ & _ & _ & _ & _ & E).
+    apply (effect_risk _ _ _ _ _ _ R E). split; cbn; [left|]; lia.
+  - unfold msg_withdraw in H. do 2 exec1 H.
+    destruct (withdraw_h_effect c s from app epid id amt ienv s' PE W ltac:(lia) H) as (v0 & ep & _ & _ & _ & _ & _ & _ & _ & E).
+    apply (effect_risk _ _ _ _ _ _ R E). split; cbn; [left|]; lia.
+  - unfold msg_draw in H. do 2 exec1 H.
+    destruct (draw_h_effect c s from app epid id amt ienv s' CK PE W H) as (v0 & ep & Hf & Hep & Hp & Ha & _ & _ & Hamt & _ & Hce & _ & _ & E).
+    apply (effect_risk _ _ _ _ _ _ R E). split; cbn [bc_dout bc_pair bc_app v_out v_pair v_app with_out with_int].
+    + left. lia.
+    + intros _. exists ep. rewrite Hp, Ha. split; [exact Hep|lia].
+  - destruct (repay_effect c s from app epid id amt ienv s' PE W H) as (v0 & ep & Hf & Hep & Hp & _ & _ & _ & _ & [[_ E]|(Hgt & Hfl & E)]).
+    + apply (effect_risk _ _ _ _ _ _ R E). split; cbn [bc_dout v_out with_out with_int]; [left|]; lia.
+    + apply (effect_risk _ _ _ _ _ _ R E). split; cbn [bc_dout v_out with_out with_int]; [|lia].
+      right. exists ep. cbn [v_pair v_out with_int with_out]. rewrite Hp. split; [exact Hep|exact Hfl].
+  - destruct (close_effect c s from app epid id ienv s' PE W H) as (v0 & ep & Hf & _ & _ & _ & _ & _ & E).
+    pose proof (vwf_found _ _ _ W Hf) as (_ & W2 & _).
+    apply (effect_risk _ _ _ _ _ _ R E). split; cbn [bc_dout]; [trivial|lia].
+  - unfold msg_deposit_draw in H. do 5 exec1 H. exec1 H.
+    destruct (deposit_h_effect c s from app epid id amt i1 st PE W ltac:(lia) E) as (v0 & ep & _ & _ & _ & _ & _ & _ & _ & E1).
+    pose proof (effect_inv01 _ _ _ _ _ _ Hu I E1) as I1.
+    assert (R1 : InvRisk c st) by (apply (effect_risk _ _ _ _ _ _ R E1); split; cbn; [left|]; lia).
+    destruct (draw_h_effect c st from app epid id z0 i2 s' CK (inv_prods_exist c st I1) (i_wf _ _ I1) H)
+      as (v1 & ep1 & Hf1 & Hep1 & Hp1 & Ha1 & _ & _ & Hamt & _ & Hce & _ & _ & E2).
+    apply (effect_risk _ _ _ _ _ _ R1 E2). split; cbn [bc_dout bc_pair bc_app v_out v_pair v_app with_out with_int].
+    + left. lia.
+    + intros _. exists ep1. rewrite Hp1, Ha1. split; [exact Hep1|lia].
+  - destruct (stable_create_effect c s from app epid amt s' CK H) as (ep & tout & Hep & _ & _ & _ & _ & _ & Hce & _ & E).
+    apply (effect_risk _ _ _ _ _ _ R E). split; cbn [bc_dout bc_pair bc_app sv_out sv_pair sv_app]; [trivial|].
+    intros _. exists ep. split; [exact Hep|lia].
+  - destruct (stable_deposit_effect c s from app epid id amt s' CK PE H) as (x0 & ep & tout & Hf & Hep & Hp & Ha & _ & _ & _ & Hce & _ & E).
+    apply (effect_risk _ _ _ _ _ _ R E). split; cbn [bc_dout bc_pair bc_app sv_out sv_pair sv_app]; [trivial|].
+    intros _. exists ep. rewrite Hp, Ha. split; [exact Hep|lia].
+  - destruct (stable_withdraw_effect c s from app epid id amt s' CK PE H) as (x0 & ep & tout & upd & _ & _ & _ & _ & _ & Hupd & _ & _ & _ & E).
+    apply (effect_risk _ _ _ _ _ _ R E). split; cbn [bc_dout sv_out]; [trivial|lia].
+  - destruct (interest_effect c s app id ienv s' W H) as (v0 & _ & _ & E).
+    apply (effect_risk _ _ _ _ _ _ R (E 2)). split; cbn; [left|]; lia.
+  - unfold donate in H. exec1 H. exec1 H. apply send_spec in E. destruct E as (_ & b1 & -> & Hb1).
+    injection H as <-. apply (risk_frame c s); [exact R|reflexivity..].
+  - injection H as <-. apply (risk_frame c s); [exact R|reflexivity..].
+  - injection H as <-. apply (risk_frame c s); [exact R|reflexivity..].
+  - injection H as <-. apply (risk_frame c s); [exact R|reflexivity..].
+  - injection H as <-. apply (risk_frame c s); [exact R|reflexivity..].
+  - injection H as <-. apply (risk_frame c s); [exact R|reflexivity..].
+Qed.
+
+Theorem history_risk c ops : cfg_ok c -> Forall user_op ops -> forall s, Inv01 c s -> InvRisk c s ->
+  Inv01 c (run_all c ops s) /\ InvRisk c (run_all c ops s).
+Proof.
+  intros CK. induction ops as [|o ops IH]; intros U s I R; [split; assumption|].
+  inversion U as [|? ? Uo Uops]; subst. cbn [run_all fold_left]. apply IH; [exact Uops|apply step_inv01; assumption|].
+  destruct (step_cases c s o) as [(s' & H & ->)|[_ ->]]; [|exact R].
+  exact (run_risk c s o s' CK Uo I R H).
+Qed.
+
+Lemma risk_init c b sp t pr : InvRisk c (init b sp t pr).
+Proof. constructor; [intros v []|]. intros a p ep _. unfold pmint. cbn. lia. Qed.
+
+Lemma get_ep_nodup c e : NoDup (map ep_id (epairs c)) -> In e (epairs c) -> get_ep c (ep_id e) = Some e.
+Proof.
+  unfold get_ep. induction (epairs c) as [|x l IH]; cbn [map find]; intros Hnd Hin; [destruct Hin|].
+  inversion Hnd as [|? ? Hnx Hnd']; subst. destruct Hin as [->|Hin].
+  - rewrite Z.eqb_refl. reflexivity.
+  - destruct (Z.eqb_spec (ep_id x) (ep_id e)) as [Ee|Ee]; [|exact (IH Hnd' Hin)].
+    exfalso. apply Hnx. rewrite Ee. apply in_map. exact Hin.
+Qed.
+
+Theorem risk_holds c s : cfg_ok3 c -> InvRisk c s -> holds_C03 c s = true.
+Proof.
+  intros [[Hnd _] CK3] R. unfold holds_C03. apply andb_true_iff. split.
+  - unfold c03_floor_ok. apply forallb_forall. intros v Hin. destruct (r_floor _ _ R v Hin) as (ep & Hep & Hf).
+    rewrite Hep. apply Z.leb_le. exact Hf.
+  - unfold c03_ceiling_ok. apply forallb_forall. intros e Hin.
+    pose proof (r_ceil _ _ R (ep_app e) (ep_id e) e (get_ep_nodup c e Hnd Hin)) as HC.
+    destruct (CK3 e Hin) as (_ & _ & _ & _ & Hce). unfold pmint in HC.
+    destruct (prods s (ep_app e) (ep_id e)); [|reflexivity]. apply Z.leb_le. lia.
+Qed.
+
+(* ---------- inactive price: the four risk-taking operations fail ---------- *)
+Definition risk_op_on (o : op) (a e : Z) : Prop :=
+  match o with
+  | Create _ a' e' _ _ | Draw _ a' e' _ _ _ | Withdraw _ a' e' _ _ _ | DepositDraw _ a' e' _ _ _ _ => a' = a /\ e' = e
+  | _ => False
+  end.
+
+Theorem price_inactive_fails c s o a e ep : cfg_ok3 c -> user_op o -> Inv01 c s -> PriceOk s ->
+  risk_op_on o a e -> get_ep c e = Some ep -> e_status (esm s a) = false -> price_required_missing s ep = true ->
+  is_ok (run c s o) = false /\ step c s o = s.
+Proof.
+  intros CK3 U I PO Hop Hep Hst Hm.
+  assert (Hno : is_ok (run c s o) = false).
+  { pose proof (run_c03_step c s o CK3 U I PO) as HS.
+    destruct (is_ok (run c s o)); [|reflexivity]. exfalso.
+    unfold holds_C03_step in HS. destruct o; cbn [risk_op_on] in Hop; try contradiction; destruct Hop as [-> ->];
+      cbv zeta beta in HS; rewrite Hep, Hst, Hm in HS; discriminate. }
+  split; [exact Hno|apply step_rejected; exact Hno].
+Qed.
+
+(* ---------- the example configuration meets the hypotheses ---------- *)
+From Comdex Require Import Model.VaultExample.
+Lemma ex_cfg_ok3 : cfg_ok3 ex_cfg.
+Proof.
+  split; [exact ex_cfg_ok|]. intros e [<-|[<-|[]]]; unfold ep_ok3; cbn; repeat split; try discriminate; reflexivity.
+Qed.
+Lemma ex_price_ok : PriceOk ex_init.
+Proof. intros a p. cbn. unfold ex_price. destruct (a =? 1); [|discriminate]. intros H; injection H as <-. discriminate. Qed.
